@@ -939,9 +939,11 @@ def check(pid, tier, seed):
         ctx["first_config"] = (label == configs[0][0])
         for sname, path in files:
             shards, probs = run_stream(harness, sname, path, workdir, timeout)
-            for kind, shard, what in probs:
-                exe = harness if kind == "impl" else R.DRIVER
-                first = R.locate_hang_or_crash(exe, shard) if sname != "macros" else None
+            for kind, where, what in probs:
+                if kind == "impl":
+                    first = where           # the harness wrapper names the request itself
+                else:
+                    first = R.locate_hang_or_crash(R.DRIVER, where) if (sname != "macros" and where and os.path.exists(where)) else None
                 problems.append({"side": kind, "what": what, "request": first, "shown": R.show_req(first) if first else None,
                                  "config": label})
             n_stream = 0
